@@ -215,6 +215,55 @@ def component_alias_equals_direct_reference(kind: int, wrap: int, order: int) ->
     return _alias_ok(kind, wrap, order, False)
 
 
+# ------------------------------------------------------------------------------------------------ allOf member by reference
+def _fam(base_req, child_requires, child_redeclares):
+    base = {"type": "object", "properties": {"p-x": {"type": "string"}, "q": {"type": "integer"}, "l": {"type": "array", "items": {"type": "number"}}}}
+    if base_req:
+        base["required"] = ["p-x"]
+    extra = {"type": "object", "properties": {"c": {"type": "integer"}}}
+    if child_redeclares == 1:
+        extra["properties"]["p-x"] = {"type": "string"}
+    elif child_redeclares == 2:  # a case/delimiter twin of an inherited name: both get disambiguated in Child
+        extra["properties"]["p_x"] = {"type": "integer"}
+    elif child_redeclares == 3:  # narrows the item type of an inherited list
+        extra["properties"]["l"] = {"type": "array", "items": {"type": "integer"}}
+    if child_requires:
+        extra["required"] = ["p-x"]
+    fam = {"Base": base, "Child": {"allOf": [{"$ref": "#/components/schemas/Base"}, extra]}, "Sibling": {"allOf": [{"$ref": "#/components/schemas/Base"}, {"type": "object", "properties": {"s": {"type": "string"}}}]}}
+    return {n: oai.Schema.model_validate(v) for n, v in fam.items()}
+
+
+_FAM = {(a, b, c): _fam(a, b, c) for a in (False, True) for b in (False, True) for c in range(4)}
+
+
+def _shape(s, name):
+    m = s.classes_by_name[name]
+    return tuple(sorted((p.name, str(p.python_name), p.required, p.get_type_string()) for p in (m.required_properties or []) + (m.optional_properties or [])))
+
+
+def allof_member_by_reference_leaves_target_unchanged(base_req: bool, child_requires: bool, child_redeclares: int, order: int) -> bool:
+    """
+    A schema that is used as an allOf member through a $ref is not changed by that use: Base, and a sibling composed
+    from Base, have the same properties with the same requiredness as in the document without Child, whatever Child
+    requires, re-declares, narrows or adds next to the inherited names, and wherever it is declared (an inline copy of
+    Base in Child could not touch them either).
+    pre: 0 <= order < 6 and 0 <= child_redeclares < 4
+    post: _
+    """
+    fam = None
+    for (a, b, c), v in _FAM.items():
+        if a == base_req and b == child_requires and c == child_redeclares:
+            fam = v
+    names = _perm(["Base", "Child", "Sibling"], order)
+    full = build_schemas(components={n: fam[n] for n in names}, schemas=Schemas(), config=CFG)
+    alone = build_schemas(components={n: fam[n] for n in names if n != "Child"}, schemas=Schemas(), config=CFG)
+    if full.errors or alone.errors:
+        return False
+    child = dict((n, r) for n, _, r, _ in _shape(full, "Child"))
+    want_child_req = True if (base_req or child_requires) else False
+    return _shape(full, "Base") == _shape(alone, "Base") and _shape(full, "Sibling") == _shape(alone, "Sibling") and child.get("p-x") == want_child_req
+
+
 def component_alias_of_alias_equals_direct_reference(kind: int, wrap: int, order: int) -> bool:
     """
     The same through a chain Alias -> Mid -> X.
